@@ -248,7 +248,7 @@ def _load():
     register(Profile("C02", [C02], [(2, wide), (1, faulty)],
                      "distinct history digest; non-trivial = >=1 tie (two consecutive events at one date) and records of >=2 types",
                      B(40000, 500000)))
-    register(Profile("C14", [C14], [(2, wide), (1, faulty), (1, profile(plan={"time": 0.4, "cust": 0.6, "deadlock": 0.0}))],
+    register(Profile("C14", [C14], [(2, wide), (1, faulty), (1, dict(wide, np_samples=0.5, exact=0.0)), (1, profile(plan={"time": 0.4, "cust": 0.6, "deadlock": 0.0}))],
                      "distinct history digest; non-trivial = >=2 optional features enabled and >=10 events executed",
                      B(60000, 800000)))
 
@@ -280,7 +280,7 @@ def _load():
     register(Profile("C09", [C09, Ref], [(1, core), (2, rout), (1, rout_b)],
                      "distinct history digest; non-trivial = >=1 routing decision checked (per-router-kind and unequal-queue JSQ/LB decision counters reported)",
                      B(40000, 400000)))
-    samp = profile(preempt=0.0, sched_pre_opts=[False], tdep=0.5, batch=0.5, exact=0.15, n=[1, 2, 2, 3], slot=0.1, ps=0.05)
+    samp = profile(preempt=0.0, sched_pre_opts=[False], np_samples=0.15, tdep=0.5, batch=0.5, exact=0.15, n=[1, 2, 2, 3], slot=0.1, ps=0.05)
     register(Profile("C10", [C10, Ref], [(1, core), (3, samp), (1, dict(samp, f_bad=1.0)), (1, dict(kfa, tdep=0.5, batch=0.5))],
                      "distinct history digest; non-trivial = >=3 arrivals on one stream and >=1 completed service audited against its sample "
                      "(F5 sub-profile: one invalid sample planted per run; counters F5:planted/served/raised reported)",
@@ -296,7 +296,8 @@ def _load():
                  sched_pre_opts=[False, False, "resume", "restart", "resample", "reroute"])
     tt["slot"] = 0.9     # slot is tried only where sched was not drawn
     tt_blk = dict(tt, qcap=0.8, qcap_vals=[INF, 0, 1, 2], n=[2, 2, 3], sched_pre_opts=[False], slot=0.0)   # overtime servers holding blocked customers
-    register(Profile("C12", [C12], [(4, tt), (1, tt_blk)],
+    tt_slotblk = dict(tt, sched=0.0, slot=1.0, qcap=0.8, qcap_vals=[INF, 0, 1, 2], n=[2, 2, 3])   # slotted nodes whose customers get blocked downstream
+    register(Profile("C12", [C12], [(4, tt), (1, tt_blk), (1, tt_slotblk)],
                      "distinct history digest; non-trivial = >=1 shift end with a service in flight or >=1 slot with more customers waiting than its size",
                      B(30000, 300000)))
     pat = profile(renege=0.8, jockey=0.5, baulk=0.6, prio=0.5, preempt=0.3, sched=0.25, qcap=0.4, syscap=0.2, n=[1, 2, 2, 3], ps=0.03, slot=0.05,
